@@ -176,8 +176,7 @@ func runRace(sc raceScenario) (ops int64) {
 	if sc.EtcdAPI {
 		srv := server.NewServer(b, rm, server.Config{})
 		var le leader.LeaderElection
-		es, _, le = server.HandlersForSim(srv)
-		go le.Campaign()
+		es, _, le = server.HandlersForSim(srv) // (brain.New has already started the node's campaign)
 		for i := 0; i < 500 && !le.IsLeader(); i++ {
 			time.Sleep(10 * time.Millisecond)
 		}
